@@ -280,11 +280,23 @@ func main() {
 
 		// ------------------------------------------------ a plugin that exists, but not on PATH
 		c.Part("not-on-path")
-		c.Bound("valid names whose executable is installed in the working directory and in TMPDIR only (not on PATH), in the 4 library positions and 4 CLI positions: the start must fail and no process may be started")
+		c.Bound("valid names whose executable is installed in the working directory, in TMPDIR and next to the age binary only (none of them on PATH), in the 4 library positions and 4 CLI positions: the start must fail and no process may be started")
 		if c.Shard == 0 {
+			// the age binary itself runs from a directory that is not on PATH and that holds the plugins too
+			ageDir := filepath.Join(dir, "agebin")
+			os.MkdirAll(ageDir, 0o755)
+			ageCopy := ""
+			if ageBin != "" {
+				if b, err := os.ReadFile(ageBin); err == nil {
+					ageCopy = filepath.Join(ageDir, "age")
+					if err := os.WriteFile(ageCopy, b, 0o755); err != nil {
+						panic(err)
+					}
+				}
+			}
 			for _, name := range []string{"cwdonly", "CwdOnly", "cwd-only.1"} {
 				lower := strings.ToLower(name)
-				for _, base := range []string{work, tmpd} {
+				for _, base := range []string{work, tmpd, ageDir} {
 					install(base, name)
 					install(base, lower)
 				}
@@ -351,7 +363,7 @@ func main() {
 						c.Fail("executable-outside-path-started/"+st.what, id, "age-plugin-"+lower+" is not on PATH (it exists in the working directory and in TMPDIR): nothing may be started", map[string]interface{}{"name": name, "err": fmt.Sprint(err), "started": fmt.Sprint(recs)})
 					}
 				}
-				if ageBin != "" {
+				if ageCopy != "" {
 					in := filepath.Join(work, "nop-input")
 					os.WriteFile(in, []byte("hello"), 0o600)
 					anyFile, _ := lab.Encrypt([]age.Recipient{keys.X(0).Rcpt}, []byte("x"), false, nil)
@@ -365,7 +377,7 @@ func main() {
 							continue
 						}
 						os.Remove(execlog)
-						cmd := exec.Command(ageBin, r...)
+						cmd := exec.Command(ageCopy, r...)
 						cmd.Dir = work
 						var stderr bytes.Buffer
 						cmd.Stderr = &stderr
